@@ -945,3 +945,25 @@ def seq_mem(seq, x):
 def mem_all_indices(seq_e):
     i = z3.Int(fresh_name("mi"))
     return z3.ForAll([i], z3.Implies(z3.And(i >= 0, i < z3.Length(seq_e)), seq_mem_z3(seq_e, seq_e[i])))
+
+
+_POS_FNS = {}
+
+
+def seq_pos_z3(seq_e, x_e):
+    """POS(seq, x): some index at which x occurs in seq (choice function; constrained only for members)"""
+    key = str(seq_e.sort())
+    if key not in _POS_FNS:
+        _POS_FNS[key] = z3.Function("POS_" + key.replace("(", "_").replace(")", "").replace(" ", ""), seq_e.sort(), x_e.sort(), z3.IntSort())
+    return _POS_FNS[key](seq_e, x_e)
+
+
+def seq_pos(seq, x):
+    return Sym(IntT, seq_pos_z3(seq.e, coerce(x, seq.ty.elem)))
+
+
+def mem_has_position(seq_e, elem_sort):
+    """every member of the sequence occurs at its POS index"""
+    x = z3.Const(fresh_name("px"), elem_sort)
+    p = seq_pos_z3(seq_e, x)
+    return z3.ForAll([x], z3.Implies(seq_mem_z3(seq_e, x), z3.And(p >= 0, p < z3.Length(seq_e), seq_e[p] == x)))
